@@ -14,6 +14,7 @@ import (
 	"go/token"
 	"go/types"
 	"sort"
+	"strconv"
 	"strings"
 
 	"golang.org/x/tools/go/ssa"
@@ -90,6 +91,15 @@ func (lc *linCtx) lin(v ssa.Value, depth int) linExpr {
 		if b, ok := x.Call.Value.(*ssa.Builtin); ok && b.Name() == "len" {
 			if _, f := loadedField(x.Call.Args[0]); f == lc.fContent {
 				return sym("len(content)")
+			}
+			// the length of something else (a package-level terminator constant such as crlf): a non-negative unknown
+			if u, ok := x.Call.Args[0].(*ssa.UnOp); ok {
+				if g, ok := u.X.(*ssa.Global); ok {
+					return sym("nonneg:len(" + g.Name() + ")")
+				}
+			}
+			if k, ok := x.Call.Args[0].(*ssa.Const); ok && k.Value != nil {
+				return linExpr{coef: map[string]int64{}, k: int64(len(constantStringVal(k))), ok: true}
 			}
 		}
 	case *ssa.UnOp:
@@ -250,6 +260,10 @@ func ruleParserBounds(c *Ctx) {
 				if g.key() == req.key() && g.k <= need {
 					proved = true
 				}
+				// the guard may carry extra non-negative terms on its left-hand side:  L + n <= k  with n >= 0  gives  L <= k
+				if !proved && g.k <= need && dropsOnlyNonNegative(g, req) {
+					proved = true
+				}
 			}
 			if proved {
 				c.S.OK("R-C13-parser-bounds", key, c.Pos(c.InstrPos(in)), "implied exactly by a dominating comparison")
@@ -274,3 +288,37 @@ func ruleParserBounds(c *Ctx) {
 		c.S.Undecided("R-C13-parser-bounds", "accesses", "-", "no decidable access into the parser's content buffer found")
 	}
 }
+
+// dropsOnlyNonNegative: g's linear part equals r's plus terms with positive coefficients on symbols known to be >= 0.
+func dropsOnlyNonNegative(g, r linExpr) bool {
+	extra := false
+	for sym, c := range g.coef {
+		d := c - r.coef[sym]
+		if d == 0 {
+			continue
+		}
+		if d > 0 && strings.HasPrefix(sym, "nonneg:") {
+			extra = true
+			continue
+		}
+		return false
+	}
+	for sym, c := range r.coef {
+		if _, ok := g.coef[sym]; !ok && c != 0 {
+			return false
+		}
+	}
+	return extra
+}
+
+func constantStringVal(k *ssa.Const) string {
+	s := k.Value.ExactString()
+	if len(s) >= 2 && s[0] == '"' {
+		if u, err := strconvUnquote(s); err == nil {
+			return u
+		}
+	}
+	return s
+}
+
+func strconvUnquote(s string) (string, error) { return strconv.Unquote(s) }
